@@ -156,6 +156,10 @@ def pumped_large(n):
     d["code_spaces"] = "```\n" + " " * (40 * n) + "x\n" + "\t" * (10 * n) + "y\n\n```\n\nafter\n"
     d["indented_code_spaces"] = "para\n\n    " + " " * (40 * n) + "x\n\nafter\n"
     d["trailing_spaces"] = "\n".join("line" + " " * (n // 10) for _ in range(40)) + "\n"
+    # an opener that is never closed, followed by many quoted words / brackets: the atomic patterns must give up in linear time
+    d["unclosed_angle_quotes"] = "x <y " + " ".join(f'"w{i}"' for i in range(n)) + " end\n"
+    d["unclosed_bracket_parens"] = "x [y " + " ".join(f"(w{i})" for i in range(n)) + " end\n"
+    d["unclosed_tag_quotes"] = "x {% t " + " ".join(f'a{i}="v"' for i in range(n)) + " end\n"
     d["table_wide_cells"] = "| a | b |\n|---|---|\n| " + "x" * (10 * n) + " | `" + "y" * (10 * n) + "` |\n"
     return d
 
